@@ -159,15 +159,16 @@ def execSpec (line ans : String) : String :=
       s!"fails cycle-not-reported class={cls}" else
     if anyBad && !anyCycle && onlyPanic && !cls.startsWith "panic:injected" then
       s!"fails panic-not-surfaced-with-value class={cls}" else
-    -- every failure reachable from the request is of a kind that goes through the reporter
-    -- (syntax / link errors, import cycles); otherwise an unreported error (resolver error, panic)
-    -- may legitimately be what Compile returns, possibly before a later report happens
-    let onlyReported := reachAll.all (fun g => !c.w.bad g || c.w.fault g == some .syntaxErr || c.w.fault g == some .linkErr)
+    -- Reports may still arrive after Compile has returned (tasks of files that are no longer awaited
+    -- keep running until they notice the cancellation), so `reported` can exceed what the returned
+    -- error reflects. Sound clauses only: the reporter is never called again after it aborted; an
+    -- abort error is returned only if the reporter really aborted; the invalid-source sentinel is
+    -- returned only if something was reported and the reporter had not aborted at that time.
     (match c.abort with
      | some k =>
        if k ≥ 0 && reported > k.toNat + 1 then s!"fails reporter-called-after-abort reported={reported}"
-       else if onlyReported && k ≥ 0 && reported == k.toNat + 1 && cls != "abort" then s!"fails abort-error-not-returned class={cls}"
-       else if onlyReported && k < 0 && reported ≥ 1 && cls != "invalid-source" then s!"fails invalid-source-sentinel-not-returned class={cls}"
+       else if cls == "abort" && !(k ≥ 0 && reported == k.toNat + 1) then s!"fails abort-error-without-abort reported={reported}"
+       else if cls == "invalid-source" && reported == 0 then "fails invalid-source-without-report"
        else "holds"
      | none => "holds")
 
